@@ -10,6 +10,10 @@ theorem ordered_ok : Crng.Gen.skel_validate_Ordered =
     ["0 call lock.Lock()", "0 call h.Write(key)", "0 assign k := h.Sum64()", "0 call h.Reset()", "0 defer lock.Unlock()",
      "0 assign tsOld := m[k]", "0 if ts > tsOld", "1 assign m[k] = ts", "1 return nil", "0 return errNotNewer"] := by decide +kernel
 
+/-- the digest is Go's FNV-1a 64 (`Crng.Fnv.fnv1a64`, compared with `hash/fnv` on every run) and the map starts empty -/
+theorem hasher_is_fnv64a : Crng.Gen.skel_validate_init =
+    ["0 assign m = make(map[uint64]uint32)", "0 assign h = fnv.New64a()"] := by decide +kernel
+
 /-- the gate in `Dispatch`: after validation, on the validated key; a rejection is recorded, counted and returns -/
 theorem gate_ok : isInfix
     ["0 if conf.Validate_order", "1 assign err = validate.Ordered(key, ts)", "1 if err != nil", "2 call table.bad.Add(key, buf_copy, err)",
